@@ -54,7 +54,7 @@ def features() -> List[dict]:
         F("floatlist_append", setup=["fla = [1.5, 2.5]", "fla.append(3.5)"], loop=["fla.append(a)", "fla.append(a * 0.5)", "fla.remove(1.5)", "mon.write(fla[-1])"]),
         F("strlist_append", setup=['sla = ["ab", "cd"]', 'sla.append("q")'], loop=["sla.append(str(a))", 'sla.remove("ab")', "mon.write(sla[-1])"]),
         F("getter_vars", setup=["gm = DCMotor(56, 57, 58)", "gb = Buzzer(59)"], loop=["gsp = gm.get_speed()", "gmo = gm.get_mode()", "gfr = gb.get_frequency()", "ginv = gm.is_inverted()", "mon.write(gmo)", "mon.write(gsp + gfr)"]),
-        F("len_str", setup=['word = "abc"', "wl = str(a)"], loop=["mon.write(len(word) + len(wl))"]),
+        F("len_str", setup=['txt = "abc"', "wl = str(a)"], loop=["mon.write(len(txt) + len(wl))"]),
         F("fstring", loop=['mon.write(f"v={a}:{1.5}:{a + 1}|")']),
         F("strops", setup=['s0 = "x"'], loop=["s0 = s0 + str(a)", "mon.write(s0)", 's1 = "lit" + str(a) + "!"', "mon.write(s1)"]),
         F("fn_dev", defs=["def blink_it(n):", "    led0.on()", "    sleep(n)", "    led0.off()", "    return n + 1"], setup=["led0 = Led(13)"], loop=["x1 = blink_it(2)", "mon.write(x1)"]),
@@ -110,11 +110,11 @@ def features() -> List[dict]:
         F("ultra_loop", loop_decl=["ul = Ultrasonic(54, 55)"], loop=["mon.write(ul.measure_distance())"]),
     ]
     # f-strings: every kind of first component x what follows it
-    firsts = {"lit": "{'x'}", "cond": "{'ON' if a > 2 else 'OFF'}", "svar": "{word}", "num": "{a}", "flt": "{1.5}", "call": "{tagf(a)}", "text": "t", "concat": "{word + 'z'}", "strcall": "{str(a)}", "bool": "{a > 2}"}
-    follows = {"none": "", "text": " now", "num": "{a}", "str": "{word}", "cond": "{'p' if a > 2 else 'q'}"}
+    firsts = {"lit": "{'x'}", "cond": "{'ON' if a > 2 else 'OFF'}", "svar": "{txt}", "num": "{a}", "flt": "{1.5}", "call": "{tagf(a)}", "text": "t", "concat": "{txt + 'z'}", "strcall": "{str(a)}", "bool": "{a > 2}"}
+    follows = {"none": "", "text": " now", "num": "{a}", "str": "{txt}", "cond": "{'p' if a > 2 else 'q'}"}
     for fk, fv in firsts.items():
         for gk, gv in follows.items():
-            fs.append(F(f"fstr_{fk}_{gk}", defs=["def tagf(v):", '    return "t" + str(v)'] if fk == "call" else [], setup=['word = "abc"'], loop=[f'mon.write(f"{fv}{gv}")', f'fsv = f"{fv}{gv}"', "mon.write(fsv)"]))
+            fs.append(F(f"fstr_{fk}_{gk}", defs=["def tagf(v):", '    return "t" + str(v)'] if fk == "call" else [], setup=['txt = "abc"'], loop=[f'mon.write(f"{fv}{gv}")', f'fsv = f"{fv}{gv}"', "mon.write(fsv)"]))
     # variables first assigned inside a construct, every construct x value type x phase
     vals = {"int": ("a + 1", "0"), "float": ("a * 0.5", "1.5"), "str": ('"s" + str(a)', '"z"'), "bool": ("a > 2", "False")}
     for typ, (v1, v2) in vals.items():
@@ -168,10 +168,10 @@ def gen_features(tier: str) -> Iterator[dict]:
 # -- helper call shapes -----------------------------------------------------------------------------
 # (c) one helper, two call sites: every ordered pair of argument expression forms x helper bodies that need a
 #     helper template / a typed variant.  The helper template is used ONLY inside the def body.
-G_HEAD = ["g = a * 0.5", "fl = [1.5, 2.5]", "li = [3, 4]", 'word = "abc"', 'names = ["ab", "cd"]']
+G_HEAD = ["g = a * 0.5", "fl = [1.5, 2.5]", "li = [3, 4]", 'txt = "abc"', 'names = ["ab", "cd"]']
 G_DEFS = ["def half(v):", "    return v / 2"]
-G_NUM = ["3", "2.5", "-1.5", "a", "g", "g * 2.5", "a + 1", "g + a", "1.5 if a > 2 else 2.5", "half(a)", "fl[0]", "li[1]", "a / 4", "True", "a > 2", "abs(g)", "max(a, 2)", "int(g)", "float(a)", "-g", "len(word)"]
-G_STR = ['"s"', "word", "str(a)", 'f"{a}"', 'word + "x"', "names[1]", "str(g)"]
+G_NUM = ["3", "2.5", "-1.5", "a", "g", "g * 2.5", "a + 1", "g + a", "1.5 if a > 2 else 2.5", "half(a)", "fl[0]", "li[1]", "a / 4", "True", "a > 2", "abs(g)", "max(a, 2)", "int(g)", "float(a)", "-g", "len(txt)"]
+G_STR = ['"s"', "txt", "str(a)", 'f"{a}"', 'txt + "x"', "names[1]", "str(g)"]
 G_BODIES_NUM = {
     "arith": ["return p + 1"],
     "local": ["q = p * 2", "return q"],
@@ -247,6 +247,35 @@ def gen_device_args(tier: str) -> Iterator[dict]:
 NON_ASCII = ["é", "ß", "日", "€", "😀", "\u00a0", "ÿ"]
 
 
+# -- identifiers: names that are ordinary in Python but mean something in the generated C++ ------------------------
+CPP_WORDS = ("alignas alignof and_eq asm auto bitand bitor bool case catch char char16_t char32_t compl const constexpr const_cast decltype default delete do double "
+             "dynamic_cast enum explicit export extern float friend goto inline int long mutable namespace new noexcept not_eq nullptr operator or_eq private protected public register "
+             "reinterpret_cast short signed sizeof static static_assert static_cast struct switch template this thread_local throw typedef typeid typename union unsigned using virtual "
+             "void volatile wchar_t xor xor_eq").split()
+CORE_WORDS = ("setup loop main pinMode digitalWrite digitalRead analogWrite analogRead delay delayMicroseconds millis micros pulseIn tone noTone map constrain min max abs round sq "
+              "random randomSeed Serial String Servo HIGH LOW INPUT OUTPUT INPUT_PULLUP LED_BUILTIN A0 A5 byte word boolean PI NULL F DEC HEX").split()
+PLAIN_WORDS = "count total value idx speed level state2 flag_a".split()  # control group: must be accepted and compile
+NAME_ROLES = {
+    "var": lambda n: ([f"{n} = a + 1"], [f"{n} = {n} + 1", f"mon.write({n})", "sleep(3)"]),
+    "var_loop_only": lambda n: ([], [f"{n} = a + 2", f"mon.write({n})", "sleep(3)"]),
+    "helper": lambda n: ([f"def {n}(v):", "    mon.write(v)", "    return v + 1", f"mon.write({n}(a))"], ["sleep(3)", f"mon.write({n}(1))"]),
+    "helper0": lambda n: ([f"def {n}():", "    mon.write(7)", f"{n}()"], ["sleep(3)", f"{n}()"]),
+    "param": lambda n: ([f"def fwd({n}):", f"    return {n} + 1", "mon.write(fwd(a))"], ["sleep(3)"]),
+    "loopvar": lambda n: ([f"for {n} in range(2):", f"    mon.write({n})"], ["sleep(3)"]),
+    "list": lambda n: ([f"{n} = [a, 2]", f"{n}.append(3)", f"mon.write(len({n}))"], [f"mon.write({n}[0])", "sleep(3)"]),
+    "device": lambda n: ([f"{n} = Led(13)", f"{n}.on()"], [f"{n}.toggle()", "sleep(3)"]),
+    "global_in_helper": lambda n: ([f"{n} = a", "def bump():", f"    global {n}", f"    {n} = {n} + 1", "bump()", f"mon.write({n})"], ["sleep(3)"]),
+}
+
+
+def gen_names(tier: str) -> Iterator[dict]:
+    for word in CPP_WORDS + CORE_WORDS + PLAIN_WORDS:
+        for role, make in NAME_ROLES.items():
+            setup, loop = make(word)
+            src = common.script(["a = analog_read(\"A0\")"] + setup, loop, prologue=PRO)
+            yield {"id": f"N:{word}:{role}", "space": "N", "src": src, "runs": [{"passes": 2, "ar": {"A0": [4]}}], "must_accept": word in PLAIN_WORDS}
+
+
 def literal_strings(tier: str) -> List[str]:
     printable = [chr(c) for c in range(32, 127)]
     out = [""] + printable + ["".join(p) for p in itertools.product(printable, repeat=2)]
@@ -309,6 +338,8 @@ def structure_errors(cpp: str) -> Optional[str]:
 
 def judge(case, tr, dev_runs, host_runs):
     if tr.status in ("reject", "syntax"):
+        if case.get("must_accept"):
+            return "violation", f"an ordinary identifier was rejected: {tr.error}"
         return "reject", tr.error or ""
     if tr.status != "ok":
         return "transpile_" + tr.status, tr.error or ""
@@ -322,13 +353,13 @@ def judge(case, tr, dev_runs, host_runs):
         if any("signal 14" in f for f in dr.faults):
             return "skip_device_timeout", ""
         return "violation", f"firmware crashed: {dr.faults[:2]} {dr.sanitizer[:1]} exit={dr.exit_code}"
-    if case["space"] == "L":
+    if case["space"] in ("L", "N"):
         hr = host_runs[0]
         if hr.error is not None:
             return "skip_host_" + (hr.error_type or "error"), hr.error or ""
         diff = observe.compare(observe.reduce_host(hr.events), observe.reduce_device(dr), check_lcd=True, check_snap=True)
         if diff:
-            return "violation", "string literal not preserved: " + diff
+            return "violation", ("string literal not preserved: " if case["space"] == "L" else "firmware and CPython disagree: ") + diff
     return "match", ""
 
 
@@ -341,6 +372,8 @@ def main(tier: str, seed: int, only=None) -> int:
         common.drive(report, MOD, gen_calls(tier), opts={"host": False}, batch_size=40, bad=bad, include_witnesses=False)
     if not only or "D" in only:
         common.drive(report, MOD, gen_device_args(tier), opts={"host": False}, batch_size=40, bad=bad, include_witnesses=False)
+    if not only or "N" in only:
+        common.drive(report, MOD, gen_names(tier), opts={"host": True}, batch_size=8, bad=bad, include_witnesses=False)
     if not only or "L" in only:
         common.drive(report, MOD, gen_literals(tier), opts={"host": True, "host_timeout": 30}, batch_size=2, bad=bad, include_witnesses=False)
     fs = features()
@@ -356,5 +389,5 @@ def main(tier: str, seed: int, only=None) -> int:
 
 def replay(path: str) -> int:
     data = json.loads(open(path).read())
-    host = data["case"].get("space") == "L"
+    host = data["case"].get("space") in ("L", "N")
     return common.replay_program(ID, MOD, path, opts={"host": host, "host_timeout": 30}, bad=("violation", "transpile_crash", "transpile_timeout"))
